@@ -335,6 +335,8 @@ static void run_out(scpi_t * context, const vh_out_t * o) {
     }
 }
 
+void (*vh_nested_hook)(scpi_t * context, int stage);
+
 scpi_result_t vh_handler(scpi_t * context) {
     vh_ctx_t * v = VH_OF(context);
     int tag = (int) SCPI_CmdTag(context);
@@ -352,6 +354,7 @@ scpi_result_t vh_handler(scpi_t * context) {
     }
     if (v->log_enabled) { vh_buf_printf(&v->log, "H tag=%d hdr=", tag); vh_buf_add_escaped(&v->log, context->param_list.cmd_raw.data, context->param_list.cmd_raw.length); vh_buf_addc(&v->log, '\n'); }
     if (!sig) return SCPI_RES_OK;
+    if (vh_nested_hook) vh_nested_hook(context, 0);
     if (sig->want_numbers) {
         size_t n = sig->want_numbers, k; int32_t * nums = (int32_t *) malloc(sizeof(int32_t) * n);
         scpi_bool_t ok;
@@ -373,6 +376,7 @@ scpi_result_t vh_handler(scpi_t * context) {
             return SCPI_RES_ERR;
         }
     }
+    if (vh_nested_hook) vh_nested_hook(context, 1);
     limit = sig->nouts;
     if (sig->verdict != VV_OK && sig->fail_after < limit) limit = sig->fail_after;
     for (i = 0; i < limit; i++) { run_out(context, &sig->outs[i]); if (inv) inv->nouts_done = i + 1; }
